@@ -32,6 +32,9 @@ var stubUnlessSubject = []string{
 
 var subjectPkg string
 
+// guard of the stub call being executed (set by callFunction)
+var stubGuard *Term
+
 func isStubPkg(path string) bool {
 	for _, p := range stubPkgs {
 		if path == p || strings.HasPrefix(path, p+"/") || (strings.HasSuffix(p, "/") && strings.HasPrefix(path, p)) {
@@ -48,10 +51,19 @@ func isStubPkg(path string) bool {
 
 func constStr(v Value) string {
 	s, ok := v.(VStr)
-	if !ok || len(s.alts) != 1 || !s.alts[0].g.isTrue() {
-		notEncodable("expected concrete string, got %s", describe(v))
+	if ok && len(s.alts) == 1 && s.alts[0].g.isTrue() {
+		return s.alts[0].s
 	}
-	return s.alts[0].s
+	if ok && stubGuard != nil {
+		// a literal stored under the guard of a conditional call: pick the alternative the call guard implies
+		for _, a := range s.alts {
+			if mkAnd(stubGuard, a.g) == stubGuard {
+				return a.s
+			}
+		}
+	}
+	notEncodable("expected concrete string, got %s", describe(v))
+	return ""
 }
 
 func (x *Exec) input(name, kind string, w int, lo, hi int64, ranged bool) *Term {
@@ -162,6 +174,10 @@ var harnessPrims = map[string]StubFn{
 	},
 	"vKnown": func(x *Exec, fr *Frame, fn *ssa.Function, a []Value, p token.Pos) Value {
 		x.pendKnown = append(x.pendKnown, KnownRegion{constStr(a[0]), asBool(a[1])})
+		return nil
+	},
+	"vSplit": func(x *Exec, fr *Frame, fn *ssa.Function, a []Value, p token.Pos) Value {
+		x.splitVars = append(x.splitVars, constStr(a[0]))
 		return nil
 	},
 	"vSliceBound": func(x *Exec, fr *Frame, fn *ssa.Function, a []Value, p token.Pos) Value {
